@@ -193,7 +193,7 @@ func genC15(t *core.Tape, tier string) *Scenario {
 	}
 	boundSteps(p)
 	genYield(t, p)
-	if p.Kind == KServer && (mode == 0 || mode == 2) && sc.Clients[0].ReadMax == 0 && t.Bool(1, 4, "late.close.focus") {
+	if p.Kind == KServer && (mode == 0 || mode == 2) && sc.Clients[0].ReadMax == 0 && t.Bool(1, 2, "late.close.focus") {
 		// HTTP/1.1 over TLS, a receiver blocked on a quiet stream, a handler
 		// that stops when its context ends: the server's reaction to the
 		// cancellation (its own classification of it, or a clean end) can reach
@@ -218,7 +218,7 @@ func genC15(t *core.Tape, tier string) *Scenario {
 		}
 		sc.Notes["late_close_focus"]++
 	}
-	if p.K.H1LateClose && !p.K.HTTP2 && t.Bool(1, 2, "watcher.slow") {
+	if p.K.H1LateClose && !p.K.HTTP2 && t.Bool(3, 4, "watcher.slow") {
 		// the library's own context watcher is slow to wake: what the server
 		// sends in reaction to the cancellation can then reach a blocked read
 		i := simhttp.PointIndex("watch.woken")
